@@ -29,6 +29,8 @@ PROGRAMS = [
     ["-m", '"Ayiw', "-m", '$"ap', "-m", '"ayy'],
     ["-m", "p", "-c", "$", "-m", "dd"],
     ["-m", '"bP', "-m", '"Byiw', "-m", '"bp', "-c", "$"],
+    ["-v", "a", "-m", "yiw", "--else", "-m", "P", "-c", "$", "--end"],      # lines without an 'a' only yank, the others put first
+    ["-g", "7", "-m", "yy", "--else", "-m", "p", "-c", "e", "--end"],
 ]
 
 
@@ -75,6 +77,9 @@ def _run(chk, binary, rng, thorough, nsc, nruns):
         scs.append(("files", {"files": files, "opts": fo, "cmds": prog, "stdin": None}))
         if thorough:
             scs.append(("files-lw", {"files": files, "opts": fo + ["--linewise"], "cmds": prog, "stdin": None}))
+        if "--else" in prog:
+            # --silent: units without a field print nothing and may leave early; what they yanked must be gone all the same
+            scs.append(("stdin-lw", {"files": [], "opts": ["--silent", "--linewise"], "cmds": prog, "stdin": big_text(rng, 200)}))
     # a register written before a -g/-v scan and read inside it, with enough matching work per file that a worker
     # waiting inside the scan could pick up another file's unit (nested parallelism would leak the register)
     for rep in range(3 if thorough else 1):
